@@ -14,7 +14,7 @@ open Cpp
 (NUL padded to 4), the number of canonical payload bytes and those bytes (zero padded to 8) -/
 theorem C18_frame (bs : List Binding) (hok : BindingsOk bs) (b : Binding) (hb : b ∈ bs) (v : Val) :
     encodeFrame bs b.name v = some
-      { bus := pad 4 b.bus, sid := b.id, dlc := (encBytes b.ty v).length, data := pad 8 (encBytes b.ty v) } := by
+      { bus := pad 4 b.tag, sid := b.id, dlc := (encBytes b.ty v).length, data := pad 8 (encBytes b.ty v) } := by
   unfold encodeFrame; rw [find_name bs hok.names b hb]; rfl
 
 /-- **decode ∘ encode**: decoding the frame gives back the binding's name and the value -/
@@ -22,15 +22,15 @@ theorem C18_decode_encode (bs : List Binding) (hok : BindingsOk bs) (b : Binding
     (hv : wf b.ty v = true) :
     (encodeFrame bs b.name v).bind (decodeFrame bs) = some (b.name, v) := by
   rw [C18_frame bs hok b hb v]
-  simp only [Option.bind_some, decodeFrame, busName_pad b.bus (hok.bus b hb)]
+  simp only [Option.bind_some, decodeFrame, busName_pad b.tag (fun c hc => hok.bus b hb c (List.mem_of_mem_take hc))]
   rw [find_key bs hok.keys b hb]
   simp only [decBytes_pad b.ty v hv, Option.map_some]
 
 /-- **unknown**: a frame whose (id, bus) matches no binding is reported as unknown -/
 theorem C18_unknown (bs : List Binding) (f : Frame)
-    (h : ∀ b ∈ bs, ¬ (b.id = f.sid ∧ b.bus = busName f.bus)) : decodeFrame bs f = none := by
+    (h : ∀ b ∈ bs, ¬ (b.id = f.sid ∧ b.tag = busName f.bus)) : decodeFrame bs f = none := by
   unfold decodeFrame
-  have : bs.find? (fun b => b.id == f.sid && b.bus == busName f.bus) = none := by
+  have : bs.find? (fun b => b.id == f.sid && b.tag == busName f.bus) = none := by
     rw [List.find?_eq_none]
     intro b hb
     have := h b hb
@@ -45,6 +45,22 @@ payload codecs agree — decoding always, encoding wherever C13's encode half ho
 theorem C18_static_eq_dynamic_decode (t : Ty) (h : Widths t = true) (data : List Nat) :
     (dynDec t (unpack data)).map (·.1) = (cppDec t (unpack data)).map (·.1) := by
   rw [C13_decode_same t h]
+
+/-- the wrappers before fix 6533a8d compared the frame's tag with the whole bus name: a binding
+on a bus with a longer name never recognised its own frames -/
+def oldDecodeFrame (bs : List Binding) (f : Frame) : Option (String × Val) :=
+  match bs.find? (fun b => b.id == f.sid && b.bus == busName f.bus) with
+  | none => none
+  | some b => (decBytes b.ty f.data).map fun v => (b.name, v)
+
+def C18_long : List Binding := [⟨"S1", 10, [99, 104, 97, 115, 115, 105, 115], .field "a" 0 (.uint 8) .unit⟩]  -- bus "chassis"
+
+theorem C18_old_long_bus_counterexample :
+    (encodeFrame C18_long "S1" (.cons (.int 5) .nil)).bind (oldDecodeFrame C18_long) = none ∧
+    (encodeFrame C18_long "S1" (.cons (.int 5) .nil)).bind (decodeFrame C18_long) = some ("S1", .cons (.int 5) .nil) := by
+  decide
+
+example : BindingsOk C18_long := ⟨by decide, by decide, by decide⟩
 
 /-! non-vacuity: two bindings on different buses sharing an id, a 2-character bus -/
 def C18_bs : List Binding :=
